@@ -539,6 +539,11 @@ func (ix *Index) isRoot(fn *ssa.Function) bool {
 		return true
 	}
 	if token.IsExported(fn.Name()) {
+		// an exported function of an internal package cannot be named by a user of the library: its callers are the
+		// library's own
+		if fn.Signature.Recv() == nil && fn.Pkg != nil && strings.Contains(fn.Pkg.Pkg.Path()+"/", "/internal/") {
+			return false
+		}
 		return true
 	}
 	if fn.Signature.Recv() != nil && ix.ifaceMethodNames[fn.Name()] {
